@@ -68,13 +68,14 @@ def session_item(i, s, wd, mode, outline):
             disk[f + ".td"] = render_text(f, t)
     steps = []
     known = set()
-    docver = {}          # the editor's version of each document: 1 at didOpen (also after a re-open), +1 with every change
+    docver = {}          # the editor's version of each document
     for e in s["hist"]:
         f = e["file"]
         if e["ev"] == "Save":
             steps.append({"op": "save", "file": f + ".td"})
             continue
-        docver[f] = 1 if e["ev"] in ("Open", "Reopen") else docver.get(f, 0) + 1
+        # (versions need only increase within one open period: the first period starts high, a re-opened document starts at 1 again)
+        docver[f] = (10 if e["ev"] == "Open" else 1) if e["ev"] in ("Open", "Reopen") else docver.get(f, 0) + 1
         steps.append({"op": {"Open": "open", "Reopen": "reopen"}.get(e["ev"], "change"), "file": f + ".td", "v": docver[f],
                       "text": render_text(f, e["t"]), "t": e["t"], "f": f})
         known.add(f)
@@ -170,6 +171,28 @@ def validate(traces, wd, tag):
     return {x["run"]: (x["verdict"], x["why"]) for x in r.records}, r.distinct
 
 
+def leaves_with_problems(s):
+    """does some event but the last make a file that had diagnostics leave the workspace?  (Reach / Diag of Server.tla, replayed)"""
+    opened = {}
+    prev_diag = set()
+    for i, e in enumerate(s["hist"]):
+        opened[e["file"]] = e["t"]
+        root = e["file"]
+        over = lambda f: opened.get(f) or (s["disk"][f] if s["disk"][f]["k"] >= 0 else None)
+        reach, todo = set(), [root]
+        while todo:
+            f = todo.pop()
+            if f in reach or over(f) is None:
+                continue
+            reach.add(f)
+            todo.extend(g for g in over(f)["inc"] if g in FILES)
+        diag = {f for f in reach if over(f)["faulty"] or any(g not in FILES or over(g) is None for g in over(f)["inc"])}
+        if i < len(s["hist"]) - 1 and (prev_diag - reach):
+            return True
+        prev_diag = diag
+    return False
+
+
 def pick_sessions(tier, seed, wd):
     quick = tier == "quick"
     s2, r2 = tlc_sessions(2, wd, "s2")
@@ -179,9 +202,33 @@ def pick_sessions(tier, seed, wd):
     rng.shuffle(interesting)
     longer = [s for s in s3 if len(s["hist"]) >= 3]
     rng.shuffle(longer)
+    # deeper sessions by seeded simulation (5-6 events): long enough for open / change / re-open / change histories of one document
+    cfg = ('SPECIFICATION GSpec\nCONSTANTS\n  %s\n  MaxEvents = 6\n  Next1 <- Ring\nINVARIANT EmitSession\nCHECK_DEADLOCK FALSE\n' % FILE_CFG)
+    rs = common.run_tlc("SessionGen.tla", cfg, os.path.join(wd, "sim"), simulate=(400 if quick else 6000), depth=7, seed=seed, timeout=1800)
+    common.tlc_must(rs, "SessionGen simulation")
+    deep = {}
+    for x in rs.records:
+        if len(x["hist"]) >= 4:
+            deep[json.dumps(x["hist"], sort_keys=True) + json.dumps(x["disk"], sort_keys=True)] = x
+    deep = [deep[k] for k in sorted(deep)]
+    rng.shuffle(deep)
+    # a document that is changed, re-opened and changed again comes first
+    def reopened_and_changed(s):
+        seen = {}
+        for e in s["hist"]:
+            st = seen.get(e["file"], 0)
+            if e["ev"] == "Change" and st in (0, 1):
+                seen[e["file"]] = 1
+            elif e["ev"] == "Reopen" and st == 1:
+                seen[e["file"]] = 2
+            elif e["ev"] == "Change" and st == 2:
+                return True
+        return False
+    deep.sort(key=lambda s: 0 if reopened_and_changed(s) else 1)
+    longer = deep[:(150 if quick else 3000)] + longer
     n2, n3 = (500, 700) if quick else (6000, 14000)
-    stats = {"states": r2.distinct + r3.distinct, "transitions": r2.generated + r3.generated,
-             "sessions_enumerated": len(s2) + len(s3)}
+    stats = {"states": r2.distinct + r3.distinct + rs.distinct, "transitions": r2.generated + r3.generated + rs.generated,
+             "sessions_enumerated": len(s2) + len(s3), "deeper_sessions_simulated": len(deep)}
     return interesting[:n2] + longer[:n3], stats
 
 
@@ -206,8 +253,11 @@ def run_sessions(prop, tier, seed, outline, relevant):
             items.append(session_item(len(items), s, wd, mode, outline))
             meta.append((s, mode))
     if prop == "C11":
-        # adversarial hold schedules: a diagnostics task parked at a hook while the session goes on
+        # adversarial hold schedules: a diagnostics task parked at a hook while the session goes on; sessions in which a file
+        # with problems leaves the workspace before the last event come first (its clearing publication is the one a superseded
+        # run must not lose)
         multi = [s for s in sessions if len(s["hist"]) >= 2]
+        multi.sort(key=lambda s: 0 if leaves_with_problems(s) else 1)
         holds = [("task1", "publish", 1), ("task1", "start", 1), ("task2", "publish", 1), ("task1", "publish", 2), ("main", "spawn", 2)]
         for j, s in enumerate(multi[:(40 if tier == "quick" else 600)]):
             for (w, p_, n) in holds:
